@@ -5,7 +5,7 @@ from xdsl.context import Context
 from xdsl.dialects import arith, builtin, scf
 from xdsl.dialects.builtin import IndexType, MemRefType
 from xdsl.dialects.linalg import GenericOp
-from xdsl.dialects.memref import CopyOp, DeallocOp
+from xdsl.dialects.memref import AllocaOp, AllocOp, CopyOp, DeallocOp
 from xdsl.dialects.scf import ForOp
 from xdsl.ir import Block, Operation, OpResult, Region, SSAValue
 from xdsl.irdl import Operand
@@ -98,6 +98,10 @@ class ConstructPipeline(RewritePattern):
                 # no valid pipeline detected
                 return
             assert next_op is not None
+
+        # the index ops are cloned for every stage: a buffer allocated there would be a different one in every stage
+        if any(isinstance(nested, AllocOp | AllocaOp) for index_op in index_ops for nested in index_op.walk()):
+            return
 
         # now fetch the stages
         stages: list[list[Operation]] = []
